@@ -65,6 +65,17 @@ def hugelcp_stage(kinds, cases_quick):
     return f
 
 
+def nsweep_stage(kinds, cases_quick):
+    """C06: one string family of 3 000-12 000 strings (> 64 KB of text), dictionary built / saved / loaded for 72 (XBW, FMINDEX: 40) consecutive sizes"""
+    def f(tier):
+        import os
+        only = os.environ.get("VERIF_KINDS")
+        ks = [k for k in kinds if KINDS[k] not in ("RPHTFC",) and (not only or KINDS[k] in only.split(","))]
+        return [{"name": "nsweep", "binary": "dict_rc", "param": "nsweep", "plan": [(k * NCLASS + 5, cases_quick * (3 if tier == "thorough" else 1), 60) for k in ks],
+                 "label_floors": {}, "nontrivial_floor": 6 if not only else 0}]
+    return f
+
+
 def dict_stages(kinds, quick_small, quick_large, binary="dict_rc", floors=None, nontrivial_floor=20, thorough_mult=4):
     def f(tier):
         import os
@@ -144,7 +155,8 @@ SPECS = {
                 "and compared with the reference set, and all IDs are extracted, looked up in S and located back "
                 "(bijection). non-trivial = n>=2 and >=2 buckets (front coding) / n>=2 (others), conclusive and not "
                 "tainted; distinct = 64-bit hash of (kind, params, S, op bytes). stage 'scale': 2 cases per kind with 140 000-280 000 strings "
-                "(1-4 MB of text, default MEMALLOC, bucket size mostly 2-4, i.e. more than 2^16 buckets), 300 members / IDs sampled per state",
+                "(1-4 MB of text, default MEMALLOC, bucket size mostly 2-4, i.e. more than 2^16 buckets), 300 members / IDs sampled per state. "
+                "stage 'hugelcp': 6 cases per kind with 2-6 strings of 16-50 KB whose shared prefix is 16383..16512, 32767..32800, 49152 or ~20000 bytes",
         "assumptions": DICT_ASSUME,
     },
     "C02": {
@@ -188,7 +200,7 @@ SPECS = {
     },
     "C06": {
         **_meta('Generated cases of every kind are saved and reloaded through both loaders (hash load options 1..3); the loaded objects must answer a generated query list exactly like the original and pass the reference-model sweeps; two images plus a sentinel are read back-to-back by the own loader with tellg checked after each.', 'property-based testing (rapidcheck), differential original-vs-loaded + reference model + stream position oracle'),
-        "stages": dict_stages(ALL, 40, 8, floors={"c06_stream_of_two": 200}),
+        "stages": (lambda tier: dict_stages(ALL, 40, 8, floors={"c06_stream_of_two": 200})(tier) + nsweep_stage(ALL, 1)(tier)),
         "rule": "case as C01; non-trivial = n>=2 and the two-image stream was read back completely (tellg after each own-loader "
                 "call == bytes written, sentinel intact); distinct = hash of (kind, params, S, op bytes)",
         "assumptions": DICT_ASSUME + ["HASHRPDACBlocks is loaded through its own loader only (the generic dispatcher has no case for tag 125)"],
@@ -196,7 +208,7 @@ SPECS = {
     "C07": {
         **_meta('Everything the other dictionary drivers do (all sweeps, all states, abandoned iterators, repeated saves), plus run-time MEMALLOC 1..32768 and bucket sizes 0/1, executed under ASan (recover mode) + UBSan array-bounds/null with fatal signals and a CPU watchdog caught per call; every sanitizer report, signal or escaped exception is an event.', 'property-based testing + sanitizers as oracle (ASan/UBSan reports, caught fatal signals, CPU-time watchdog on tiny inputs)'),
         "stages": (lambda tier: dict_stages(ALL, 40, 8, floors={"memalloc_small": 200, "n_mult_bucket": 100, "maxlen_ge128": 100})(tier)
-                   + scale_stage(ALL, 2)(tier)
+                   + scale_stage(ALL, 2)(tier) + hugelcp_stage(ALL, 4)(tier)
                    + [{"name": "perturb", "binary": "dict_plain", "param": "perturb", "plan": dict_plan(ALL, 20 * (4 if tier == "thorough" else 1), 4 * (4 if tier == "thorough" else 1)),
                        "label_floors": {"c07_perturb_pair": 300}, "nontrivial_floor": 100}]),
         "rule": "case as C01 plus MEMALLOC class and bucket clamp; non-trivial = n==1, n multiple of the bucket size, a string "
